@@ -86,6 +86,11 @@ def import_eyecite():
         sys.path.insert(0, REPO)
     import logging
 
+    from sim import simlock
+
+    # locks created by the code under test from now on are scheduler-aware
+    simlock.install()
+
     # eyecite logs "Unknown overlap case" warnings; log output is not part of
     # any result and would drown the check's own output
     logging.disable(logging.CRITICAL)
